@@ -13,7 +13,10 @@ RULE = ('model/implementation cases: every translated function on boundary pools
         'values around +-2^k; all rotation counts for small widths); non-trivial = distinct argument tuple '
         'whose implementation outcome is a value (not an exception) and whose value argument is not 0')
 EXPLANATION = ('Unbounded Coq theorems (all v, all widths) about the regenerated Gen.bitfun; correspondence and '
-               'reference-oracle sweep are supporting validation of the translator, not the proof')
+               'reference-oracle sweep are supporting validation of the translator, not the proof. '
+               'c39_impl_choice_encode_imm32_smallest_rotation records an implementation choice (smallest rotation) that C39 does not '
+               'require: a refactoring of encode_imm32 that returns another valid rotation keeps c39_encode_imm32_ok/_rejects/_total and '
+               'the oracle sweep green and breaks only that one theorem (reported as an unproved obligation, not a wrong encoding)')
 TRUSTED = ['tools/py2coq.py (translator, fail-closed; output cross-checked against the implementation on every run)',
            'Python int arithmetic == Coq Z arithmetic (floor div/mod, two\'s-complement bit ops)']
 ASSUMPTIONS = ['width arguments are small enough for CPython to allocate 1 << bits',
@@ -463,7 +466,7 @@ MANIFEST = {
     'text': 'proof: unbounded Coq theorems (every value incl. negative, every width) that rotl/rotr/rotate_left/rotate_right, '
             'reverse_bits, sign_extend, to_signed/to_unsigned, popcnt, clz and ctz of ppci/utils/bitfun.py equal their Z.testbit '
             'definitions; that encode_imm32 on 32-bit values succeeds exactly on the ARM-representable ones, returns a 12-bit code '
-            'that decodes to the input and uses the smallest rotation; that value_to_bytes_big_endian yields the size base-256 digits '
+            'that decodes to the input (separately, as an implementation choice not required by C39: it uses the smallest rotation); that value_to_bytes_big_endian yields the size base-256 digits '
             'of value mod 256^size, most significant first; and that the wasm runtime wrappers i32/i64_rotl/rotr/clz/ctz/popcnt and '
             'iNN_extendM_s (ppci/wasm/execution/runtime.py) compute the n-bit operation on the two\'s-complement reading of their signed '
             'operands. Both models are regenerated from the source by py2coq on every run, so the theorems are re-checked against the '
